@@ -58,7 +58,7 @@ HARNESSES = [
          tags=["C10:engine_reachable.state_is_bip380", "C10:engine_reachable.checksum_is_descsum_create"]),
 ] + [
     dict(name=n, fn="verify_checksum", props=("C10", "C11"), kind="bounded", bound=b, tags=t,
-         tier="thorough" if n in ("verify_checksum_one_char_len8", "verify_checksum_nopayload_len8", "verify_checksum_two_hashes", "verify_checksum_long") else "quick")
+         tier="thorough" if n in ("verify_checksum_one_char_len8", "verify_checksum_two_hashes", "verify_checksum_long") else "quick")
     for n, b, t in [
         ("verify_checksum_no_hash", "2 symbolic characters, no '#'", ["C10:verify_checksum.no_hash_is_payload"]),
         ("verify_checksum_one_char_len8", "1 payload char + '#' + 8 symbolic chars",
